@@ -96,6 +96,13 @@ def run_history(cfg, ops):
             if pq < -1e-12:
                 vios.append((f'C04:{what}:short-position-in-spot', f'{s} position.qty {pq!r}'))
 
+    expanded = []
+    for op in ops:
+        if op[0] == 'ladder_flatten':
+            expanded += [('ladder', op[1], op[2], op[3]), ('flatten', op[1], op[4])]
+        else:
+            expanded.append(op)
+    ops = expanded
     try:
         for op in ops:
             kind = op[0]
@@ -384,7 +391,9 @@ def run_shard(acc, shard, nshards, seed, tier):
     flatten = st.tuples(st.just('flatten'), st.integers(0, 1), st.sampled_from(['MARKET', 'LIMIT', 'STOP']))
     ladder = st.tuples(st.just('ladder'), st.integers(0, 1), st.sampled_from(['LIMIT', 'STOP']),
                        st.sampled_from([(0.3, 0.7), (0.5, 0.5), (0.3, 0.3, 0.4), (0.1, 0.9), (0.7, 0.3), (0.25, 0.5, 0.25)]))
-    op = st.one_of(submit, submit, submit, modify, modify, bracket, flatten, flatten, ladder, ladder, st.tuples(st.just('execute'), st.integers(0, 9)), st.tuples(st.just('execute'), st.integers(0, 9)), st.tuples(st.just('cancel'), st.integers(0, 9)), st.tuples(st.just('cancel'), st.integers(0, 9)),
+    splits = st.sampled_from([(0.3, 0.7), (0.5, 0.5), (0.3, 0.3, 0.4), (0.1, 0.9), (0.7, 0.3), (0.25, 0.5, 0.25), (0.3003, 0.6997), (0.11, 0.89)])
+    ladder_flatten = st.tuples(st.just('ladder_flatten'), st.integers(0, 1), st.sampled_from(['LIMIT', 'STOP']), splits, st.sampled_from(['MARKET', 'LIMIT', 'STOP']))
+    op = st.one_of(submit, submit, submit, modify, modify, bracket, flatten, ladder, ladder_flatten, ladder_flatten, ladder_flatten, st.tuples(st.just('execute'), st.integers(0, 9)), st.tuples(st.just('execute'), st.integers(0, 9)), st.tuples(st.just('cancel'), st.integers(0, 9)), st.tuples(st.just('cancel'), st.integers(0, 9)),
                    st.tuples(st.just('execute'), st.integers(0, 9)), st.tuples(st.just('price'), st.integers(0, 1), st.integers(-20, 20)))
     cfgs = st.fixed_dictionaries(dict(fee=st.sampled_from([0.0, 0.001, 0.00075, 0.0075]), balance=st.sampled_from([10_000.0, 1_000.0, 99.99]),
                                        nsym=st.integers(1, 2)))
